@@ -41,11 +41,21 @@ func GenCLIWorld(ch *Choices, thorough bool) (*IntegWorld, []cliTarget) {
 		if nctx > 0 && ch.Bool(2, 3, "in-ctx") {
 			t.Context = w.Contexts[ch.Choose(nctx, "which-ctx")].Name
 		}
+		timesOut := ch.Bool(1, 7, "times-out")
+		if timesOut {
+			// its first command never finishes by itself and is killed by the task's timeout: the
+			// task failed (also with allow_failure), whatever form its error takes on the way up
+			t.TimeoutMS = 200 + ch.Choose(400, "timeout-ms")
+			t.NBefore, t.Cond = 0, false
+		}
 		w.Tasks = append(w.Tasks, t)
 		for _, p := range taskPositions(t) {
 			pl := &ExecPlan{DurMS: ch.Choose(50, "dur")}
 			if p.block == "cmd" && ch.Bool(1, 5, "cmd-fails") {
 				pl.Exit = genExit(ch)
+			}
+			if timesOut && p.block == "cmd" && p.idx == 0 {
+				pl = &ExecPlan{DurMS: -1}
 			}
 			w.Plans[execID(t.Name, p.block, p.idx, p.v)] = pl
 		}
@@ -178,6 +188,9 @@ func (e *integEngine) checkCLI(targets []cliTarget) {
 	// (3) process exit status: error iff some target failed
 	if (dr.Err != nil) != (x.firstFail >= 0) {
 		c.Violate("C07", "cli-exit-status", "taskctl %v returned %s, model: first failing target index %d", e.w.CLIArgs, errString(dr.Err), x.firstFail)
+		if x.firstFail >= 0 && targets[x.firstFail].Pipeline && dr.Err == nil {
+			c.Violate("C02", "cli-run-reports-no-error", "taskctl %v: a stage of pipeline %s failed without allow_failure and the run reports no error", e.w.CLIArgs, targets[x.firstFail].Name)
+		}
 	}
 	// (4) every target up to the first failing one ran as the sequencing model says
 	e.checkC06(x.integ)
